@@ -9,7 +9,7 @@ vars == <<p, h, q, out, done>>
 Init == /\ p \in Prods /\ h = << <<"-">> >> /\ q = QEmpty /\ out = <<"pending">> /\ done = FALSE
 Do(hh, qq) == /\ ~done /\ h' = hh /\ q' = qq /\ out' = MLookup(p, hh, qq) /\ done' = TRUE
               /\ UNCHANGED p
-Next == \E hh \in LReqHosts, qq \in LReqPaths : Do(hh, qq)
+Next == ~done /\ \E hh \in LReqHosts, qq \in LReqPaths : Do(hh, qq)
 
 MRefinesP == done => out \in PExpect(p, h, q)
 
